@@ -40,7 +40,7 @@ func genOpts(r *mon.Rand, cfg mon.Config, mode gspec.Mode) gspec.GenOpts {
 func TestCheck(t *testing.T) {
 	cfg := mon.Load(ID)
 	rep := mon.NewReporter(cfg, "exploration",
-		"compiled objects — generated graphs/DAGs/workflows (state, branches, nested graphs, mixed paradigms), the ReAct agent (with/without return-directly tools, one or two tool calls per round) and the host multi-agent (direct answer / hand-off), driven by deterministic models — are called from N ∈ {2,8,32} goroutines released together, each call with its own input, lambda option and context, mixing the four paradigms (agents: Generate/Stream), repeated 5 (quick) / 20 (thorough) times. Oracles: the Go race detector (any report with an eino frame is a violation, de-duplicated by the innermost eino frames of the two accesses); every concurrent result equals what the same call returns alone (reference interpreter for graphs, sequential baseline for agents); run-id taint: the option payload seen by a node and the state object serials seen by handlers must belong to that call only. Non-trivial: a round with >=8 concurrent callers on one object that all returned; distinct = (object, round).",
+		"compiled objects — generated graphs/DAGs/workflows (state, branches, nested graphs, mixed paradigms), the ReAct agent (with/without return-directly tools, one or two tool calls per round) and the host multi-agent (direct answer / hand-off), driven by deterministic models — are called from N ∈ {2,8,32} goroutines released together, each call with its own input, lambda option and context, mixing the four paradigms (agents: Generate/Stream), repeated 5 (quick) / 20 (thorough) times. Oracles: the Go race detector (any report with an eino frame is a violation, de-duplicated by the innermost eino frames of the two accesses); every concurrent result equals what the same call returns alone (reference interpreter for graphs, sequential baseline for agents); run-id taint: the option payload seen by a node and the state object serials seen by handlers must belong to that call only. Cold start: every case also compiles 4 fresh typed workflows with PRNG-chosen struct field mappings (all six mapping constructors, nested paths, promoted fields, structs reached through any fields / map values, reflect.StructOf types) and calls each, without any warming run, from N ∈ {2,8,16} goroutines at once, then again with some callers bringing a struct type the object has not met; every result is compared with a plain Go model of the workflow, race reports written meanwhile are attributed to the object. Non-trivial: a round with >=8 concurrent callers on one object that all returned; distinct = (object, round).",
 		[]string{"node bodies and models are deterministic and stateless", "the harness synchronises only through its own per-run logs (so the race detector sees eino's own synchronisation)"},
 		40)
 	defer func() {
@@ -61,6 +61,9 @@ func TestCheck(t *testing.T) {
 			spec := gspec.Gen(rng, genOpts(rng, cfg, mode))
 			graphCase(ctx, rep, rng, cfg, spec, idx < 3)
 		}
+		// cold start: fresh typed workflows with struct field mappings whose first runs are concurrent
+		// (cold_struct_mapping_test.go); its own generator, so the cases above stay what they were
+		coldStructMappingCases(ctx, rep, rep.CaseRand(idx).Sub("cold-struct-mapping"), 4, idx == 0)
 	})
 }
 
